@@ -14,21 +14,22 @@ import ScpiVerif.Lemmas.Bounds
 namespace ScpiVerif.Props.C01Gen
 open ScpiVerif ScpiVerif.Lexer ScpiVerif.Gen.LexerC ScpiVerif.Lemmas.LexerC
 
-/-- no recogniser of groups 3-4, started anywhere in any buffer with any token content, evaluates `state->pos[k]` outside
+/-- no recogniser proved so far, started anywhere in any buffer with any token content, evaluates `state->pos[k]` outside
 the buffer or exhausts the fuel of a loop; the cursor it leaves is inside the buffer and not before its start -/
 theorem c_lex_no_oob (buf : Bytes) (pos : Nat) (h : pos ≤ buf.length) (tok : CTok) (ch : UInt8) :
     ∀ r ∈ [scpiLex_WhiteSpace (st buf pos) tok, scpiLex_CharacterProgramData (st buf pos) tok,
            scpiLex_DecimalNumericProgramData (st buf pos) tok, scpiLex_NondecimalNumericData (st buf pos) tok,
            scpiLex_Comma (st buf pos) tok, scpiLex_Semicolon (st buf pos) tok, scpiLex_Colon (st buf pos) tok,
-           scpiLex_SpecificCharacter (st buf pos) tok (sc ch), scpiLex_NewLine (st buf pos) tok],
+           scpiLex_SpecificCharacter (st buf pos) tok (sc ch), scpiLex_NewLine (st buf pos) tok,
+           scpiLex_SuffixProgramData (st buf pos) tok],
       r.1.oob = false ∧ r.1.ub = false ∧ r.1.buf = buf ∧ (pos : Int) ≤ r.1.pos ∧ r.1.pos ≤ buf.length := by
   have hb := Lemmas.Bounds.lex_bounds buf pos h
   simp only [List.mem_cons, List.mem_nil_iff, or_false, forall_eq_or_imp, forall_eq] at hb
-  obtain ⟨h1, _, h3, h4, _, h6, _, _, _, h10, h11, h12, h13, _⟩ := hb
+  obtain ⟨h1, h2, h3, h4, h5, h6, h7, h8, h9, h10, h11, h12, h13, _⟩ := hb
   have hs := (Props.C13.specific_spec buf pos ch h)
   intro r hr
   simp only [List.mem_cons, List.mem_nil_iff, or_false] at hr
-  rcases hr with rfl | rfl | rfl | rfl | rfl | rfl | rfl | rfl | rfl
+  rcases hr with rfl | rfl | rfl | rfl | rfl | rfl | rfl | rfl | rfl | rfl
   · rw [scpiLex_WhiteSpace_ref]; simp only [res, st_oob, st_ub, st_buf, st_pos, true_and]; omega
   · rw [scpiLex_CharacterProgramData_ref]; simp only [res, st_oob, st_ub, st_buf, st_pos, true_and]; omega
   · rw [scpiLex_DecimalNumericProgramData_ref]; simp only [res, st_oob, st_ub, st_buf, st_pos, true_and]; omega
@@ -43,6 +44,7 @@ theorem c_lex_no_oob (buf : Bytes) (pos : Nat) (h : pos ≤ buf.length) (tok : C
     · next hp => have := peekP_lt hp; simp; omega
     · simp; omega
   · rw [scpiLex_NewLine_ref]; simp only [res, st_oob, st_ub, st_buf, st_pos, true_and]; omega
+  · rw [scpiLex_SuffixProgramData_ref]; simp only [res, st_oob, st_ub, st_buf, st_pos, true_and]; omega
 
 /-- the skipping primitives: same statement (they are what the recognisers not yet proved are built from) -/
 theorem c_skip_no_oob (buf : Bytes) (pos : Nat) :
